@@ -74,6 +74,19 @@ def radiusSpecB (le : K → K → Bool) (D : List K) (r : K) (out : List Nat) : 
   && decide out.Nodup
   && (List.range D.length).all (fun j => out.contains j == leO le D[j]? (some r))
 
+/-- comparison up to a tolerance: `a ≤ b + eps`.  `knnSpecB (leTol le eps)` is the k-nearest
+    specification "up to near-ties": nearest first and minimal up to `eps` (any tie-breaking among
+    elements closer together than `eps` is accepted).  With `eps = 0` it is the exact spec. -/
+def leTol [Add K] (le : K → K → Bool) (eps : K) (a b : K) : Bool := le a (b + eps)
+
+/-- radius specification up to a tolerance at the boundary: everything returned is within
+    `r + eps`, everything within `r - eps` (i.e. `d + eps ≤ r`) is returned. -/
+def radiusSpecTolB [Add K] (le : K → K → Bool) (eps : K) (D : List K) (r : K) (out : List Nat) : Bool :=
+  out.all (fun i => decide (i < D.length))
+  && decide out.Nodup
+  && out.all (fun j => leO le D[j]? (some (r + eps)))
+  && (List.range D.length).all (fun j => out.contains j || !(leO le (D[j]?.map (· + eps)) (some r)))
+
 end Search
 
 /-! ## 2. metrics, query preparation, units -/
